@@ -33,6 +33,8 @@ def check(chk, thorough=False):
     chk.run('C04.j', 'R-SCHEMA', 'a message is complete only with all of its length-prefixed data, also when the data has not arrived yet (= C07.c)', lambda ob: __import__('sa.props.c07', fromlist=['c07c']).c07c(tree, ob), floor=6)
     chk.run('C04.k', 'R-ORDER', 'a transfer is announced with the length it will really send: the file is measured at its end and read from its start (= C01.c, measurement)', lambda ob: __import__('sa.props.c01', fromlist=['tx_measure']).tx_measure(tree, ob), floor=1)
     chk.run('C04.l', 'R-FRESH', 'transfer IDs are unique per connection because the queues and maps are per connection: created per instance (= C01.g, first part)', lambda ob: __import__('sa.props.common', fromlist=['per_instance_state']).per_instance_state(tree, ob, 'tcpcl/session.py', ('Connection', 'Messenger', 'ContactHandler')), floor=3)
+    chk.run('C04.m', 'R-GUARD', 'a direction ends on a message boundary: the idle indication that gates the close covers every octet buffer down to the socket (= C09.i = C18.d)', lambda ob: __import__('sa.props.c18', fromlist=['c18d']).c18d(tree, ob), floor=7)
+    chk.run('C04.n', 'R-FLOW', 'a started transfer gets its END segment: the final XFER_ACK or a refusal of one transfer does not tear down another one that is being sent (= C17.e)', lambda ob: __import__('sa.props.c17', fromlist=['c17e']).c17e(tree, ob), floor=3)
     chk.run('C04.h', 'R-SCHEMA', 'message type codes and field layouts equal RFC 9174', lambda ob: c04h(tree, ob), floor=7)
 
 
